@@ -2,6 +2,7 @@ import MuscleModel.Gateway.ProofsFrame
 import MuscleModel.Gateway.ProofsText
 import MuscleModel.Gateway.ProofsRaw
 import MuscleModel.Gateway.ProofsWs
+import MuscleModel.Gateway.ProofsTemplating
 import MuscleModel.Generated.Constants
 
 /-!
@@ -290,7 +291,46 @@ theorem ws_client_frame_roundtrip (op : Nat) (hop : op < 16) (key : Bytes) (hk :
     wsDecodeFrame true (wsClientFrame op key p ++ rest) = some (op, true, p, rest) :=
   ws_client_frame_decode op hop key hk p hp rest
 
+/-! ## templating gateway: the two ends' template caches (`TemplatingMessageIOGateway`, same `maxLRUCacheSizeBytes` on both ends) -/
+
+/-- **Lock-step.**  Start both ends with the same cache (in particular: empty) and send ANY Message sequence: the receiver
+    never fails, delivers exactly the sequence, and afterwards sender and receiver hold the same templates — same ids, same
+    layouts and sizes, in the same recency order — and the same byte tally.  (`TCache` equality is equality of the ordered
+    entry list and of the tally; `tRun` returns `none` as soon as the receiver cannot find or use a template.) -/
+theorem template_caches_in_step (max : Nat) (us : List TUnit) (c : TCache) :
+    ∃ c', tRun max c c us = some (c', c', us) :=
+  tRun_lockstep max us c
+
+/-- …after EVERY Message of the sequence, not only at its end -/
+theorem template_caches_in_step_after_every_message (max : Nat) (us : List TUnit) (n : Nat) :
+    ∃ c', tRun max tEmpty tEmpty (us.take n) = some (c', c', us.take n) :=
+  tRun_lockstep max (us.take n) tEmpty
+
+/-- one Message through both ends: equal caches stay equal (the sender's `GetAndMoveToFront`/`PutAtFront`/`TrimLRUCache`
+    are matched move for move by the receiver's), and the receiver delivers that Message -/
+theorem template_step_in_step (max : Nat) (c : TCache) (u : TUnit) :
+    tRx max c (tTx max c u).2 = some ((tTx max c u).1, u) :=
+  tStep_lockstep max c u
+
+/-- **consequently every payload-only Message finds its template**: whenever the sender, in step with the receiver,
+    chooses the payload-only form, the receiver's cache holds a template of that id with the Message's layout -/
+theorem template_payload_finds_template (max : Nat) (c : TCache) (u v : TUnit) (h : (tTx max c u).2 = .payload v) :
+    ∃ e, tLookup v.id c.entries = some e ∧ e.layout = v.layout ∧ tRx max c (.payload v) ≠ none :=
+  tPayload_finds_template max c u v h
+
 /-! ## non-vacuity -/
+
+/-- the scenario A B C A D A with room for three templates: the sender evicts B (not the re-used A), sends the last A
+    payload-only, and the receiver — in step — still has A -/
+example :
+    let A : TUnit := { id := 1, layout := [1], tsize := 10, trivial := false }
+    let B : TUnit := { id := 2, layout := [2], tsize := 10, trivial := false }
+    let C : TUnit := { id := 3, layout := [3], tsize := 10, trivial := false }
+    let D : TUnit := { id := 4, layout := [4], tsize := 10, trivial := false }
+    tKinds 35 tEmpty [A, B, C, A, D, A, B] = ['C', 'C', 'C', 'T', 'C', 'T', 'C'] ∧
+    (tRun 35 tEmpty tEmpty [A, B, C, A, D, A]).map (fun x => x.1.entries.map (·.id)) = some [1, 4, 3] := by
+  decide
+
 
 /-- the parameters of the compiled code satisfy `BinParams.OK` -/
 example : BinParams.OK { hs := gwHeaderSize, scratch := gwScratchRecvBufferSize, maxIn := 4294967295, mx := 256, deflate := (fun _ x => x), inflate := (fun _ _ => none) } :=
